@@ -3,7 +3,10 @@
 # usage: mk.sh [make args...]
 set -e
 cd "$(dirname "$0")"
-{ echo "-Q . HV"; find Lib Gen Model Proofs Props Extract -name '*.v' 2>/dev/null | LC_ALL=C sort; } > _CoqProject.new
+mkdir -p ../build
+exec 9>../build/.mk.lock
+flock 9
+{ echo "-Q . HV"; find Lib Gen Model Proofs Props -name '*.v' 2>/dev/null | LC_ALL=C sort; } > _CoqProject.new
 if ! cmp -s _CoqProject.new _CoqProject 2>/dev/null; then mv _CoqProject.new _CoqProject; rm -f Makefile.coq Makefile.coq.conf; else rm -f _CoqProject.new; fi
 [ -f Makefile.coq ] || coq_makefile -f _CoqProject -o Makefile.coq >/dev/null
 exec make -f Makefile.coq "$@"
